@@ -640,6 +640,21 @@ Definition spec_auth_at (p : policy) := spec_auth_at_c p None.
 Definition spec_auth (p : policy) (bd : body) (sc : list beh) (tb : body) (tsc : list beh) :=
   spec_auth_at p bd sc tb tsc 0.
 
+(* ... with a warm Bearer cache: cached token first, fresh token when that is refused *)
+Definition spec_authw_at_c (p : policy) (cn : cancel) (bd : body) (sc : list beh) (tb : body) (tsc : list beh) (t0 : Z)
+  : result * Z * list (Z * str) * list (Z * str) * list (Z * str) * list (Z * str) :=
+  let '(r1, t1, l1) := spec_send_c p cn bd sc t0 in
+  if challenged r1 then
+    let '(r2, t2, l2) := spec_send_c p cn bd (skipn (length l1) sc) t1 in
+    if bearer_challenged r1 && unauthorized r2 then
+      let '(kr, kt, kl) := spec_send_c p cn tb tsc t2 in
+      if token_ok kr then
+        let '(r3, t3, l3) := spec_send_c p cn bd (skipn (length l1 + length l2) sc) kt in
+        (r3, t3, l1, l2, kl, l3)
+      else (token_error kr, kt, l1, l2, kl, [])
+    else (r2, t2, l1, l2, [], [])
+  else (r1, t1, l1, [], [], []).
+
 Definition spec_plain_at_c (p : policy) (cn : cancel) (bd : body) (sc : list beh) (t0 : Z)
   : result * Z * list (Z * str) * list (Z * str) * list (Z * str) :=
   let '(r, t, l) := spec_send_c p cn bd sc t0 in (r, t, l, [], []).
